@@ -160,6 +160,7 @@ func (u *User) Copy() *User {
 	*nu = *u
 
 	nu.Perms = u.Perms.Copy()
+	nu.ChannelList = make([]string, len(u.ChannelList))
 	_ = copy(nu.ChannelList, u.ChannelList)
 
 	return nu
@@ -352,6 +353,7 @@ func (ch *Channel) Copy() *Channel {
 	nc := &Channel{}
 	*nc = *ch
 
+	nc.UserList = make([]string, len(ch.UserList))
 	_ = copy(nc.UserList, ch.UserList)
 
 	// And modes.
